@@ -12,10 +12,12 @@ package ledger
 import (
 	"encoding/binary"
 	"fmt"
+	"io"
 	"math"
 	"math/big"
 	"strings"
 	"testing"
+	"time"
 
 	"pgregory.net/rapid"
 
@@ -24,6 +26,7 @@ import (
 	"github.com/algorand/go-algorand/data/transactions/logic"
 	"github.com/algorand/go-algorand/data/txntest"
 	ledgertesting "github.com/algorand/go-algorand/ledger/testing"
+	"github.com/algorand/go-algorand/logging"
 	"github.com/algorand/go-algorand/protocol"
 )
 
@@ -355,6 +358,9 @@ type c22World struct {
 	seq      int
 	created  int
 	maxAsset int
+	// history so far (drives the adaptive weights)
+	frozeSeen, frozenXfer, clawMoved, destroyTried bool
+	progress                                       int // percent of the planned history already generated
 }
 
 func (w *c22World) appIdx() int      { return w.n }
@@ -427,7 +433,7 @@ func c22DrawTotal(t *rapid.T) uint64 {
 }
 
 func c22DrawAmount(t *rapid.T, bal, total uint64) uint64 {
-	switch rapid.IntRange(0, 9).Draw(t, "amtKind") {
+	switch rapid.IntRange(0, 13).Draw(t, "amtKind") {
 	case 0:
 		return 0
 	case 1:
@@ -465,33 +471,59 @@ func (w *c22World) drawOp(t *rapid.T, forceCreate bool) c22Op {
 	if forceCreate || real == 0 {
 		return w.drawCreate(t)
 	}
-	ai := rapid.IntRange(0, len(m.assets)-1).Draw(t, "asset")
-	if m.assets[ai].Phantom && rapid.IntRange(0, 3).Draw(t, "phantomKeep") != 0 {
-		ai = 1 // the first real asset
+	ai := rapid.IntRange(1, len(m.assets)-1).Draw(t, "asset")
+	if rapid.IntRange(0, 39).Draw(t, "phantom") == 0 {
+		ai = 0 // an asset id that never existed
 	}
 	a := m.assets[ai]
 	nonCreators := w.holders(a, false, true)
-	anyFrozen := false
-	for _, h := range a.H {
-		if h.Frozen {
-			anyFrozen = true
+	var frozenHolders []int
+	for i, ad := range w.addrs {
+		if a.frozen(ad) {
+			frozenHolders = append(frozenHolders, i)
 		}
 	}
+	fzOK := a.Alive && !a.P.Freeze.IsZero() && w.idxOf(a.P.Freeze) < w.n
+	cbOK := a.Alive && !a.P.Clawback.IsZero()
+	mgOK := a.Alive && !a.P.Manager.IsZero() && w.idxOf(a.P.Manager) < w.n
 	type wk struct {
 		k string
 		w int
 	}
-	ws := []wk{{"optin", 10}, {"xfer", 26}, {"claw", 12}, {"freeze", 10}, {"close", 8}, {"config", 5}, {"destroy", 6}}
-	if len(nonCreators) < 2 {
-		ws[0].w = 45
+	wOptin, wXfer, wClaw, wFreeze, wClose, wConfig, wDestroy := 4, 26, 3, 3, 7, 4, 3
+	switch {
+	case len(nonCreators) < 2:
+		wOptin = 40
+	case len(nonCreators) < 4:
+		wOptin = 10
 	}
-	if !anyFrozen {
-		ws[3].w = 22
-	} else {
-		ws[1].w = 34
+	if cbOK {
+		wClaw = 12
+		if !w.clawMoved {
+			wClaw = 24
+		}
 	}
+	if fzOK {
+		wFreeze = 8
+		if len(frozenHolders) == 0 {
+			wFreeze = 22
+		}
+	}
+	if len(frozenHolders) > 0 && !w.frozenXfer {
+		wXfer = 40
+	}
+	if mgOK {
+		wDestroy = 5
+		if !w.destroyTried && w.progress > 50 {
+			wDestroy = 25
+		}
+	}
+	if !a.Alive {
+		wOptin, wXfer, wClaw, wFreeze, wClose, wConfig, wDestroy = 3, 6, 2, 2, 8, 2, 2
+	}
+	ws := []wk{{"optin", wOptin}, {"xfer", wXfer}, {"claw", wClaw}, {"freeze", wFreeze}, {"close", wClose}, {"config", wConfig}, {"destroy", wDestroy}}
 	if w.created < w.maxAsset {
-		ws = append(ws, wk{"create", 4})
+		ws = append(ws, wk{"create", 3})
 	}
 	tot := 0
 	for _, x := range ws {
@@ -521,11 +553,18 @@ func (w *c22World) drawOp(t *rapid.T, forceCreate bool) c22Op {
 	}
 	switch kind {
 	case "optin":
-		if viaApp() {
+		var outsiders []int
+		for i := 0; i < w.n; i++ {
+			if _, ok := a.H[w.addr(i)]; !ok {
+				outsiders = append(outsiders, i)
+			}
+		}
+		_, appIn := a.H[w.addr(w.appIdx())]
+		if (!appIn && rapid.IntRange(0, 99).Draw(t, "appOptin") < 25) || (appIn && viaApp()) {
 			op.App = true
 			op.S = w.pick(t, "caller", nil, 0, true)
 		} else {
-			op.S = w.pick(t, "snd", nil, 0, true)
+			op.S = w.pick(t, "snd", outsiders, 90, true)
 		}
 	case "xfer":
 		if viaApp() {
@@ -544,6 +583,16 @@ func (w *c22World) drawOp(t *rapid.T, forceCreate bool) c22Op {
 				}
 			}
 			op.X = w.pick(t, "rcv", holdersAny, 65, false)
+			if len(frozenHolders) > 0 && !op.App {
+				switch rapid.IntRange(0, 9).Draw(t, "steerFrozen") {
+				case 0, 1, 2:
+					op.X = frozenHolders[rapid.IntRange(0, len(frozenHolders)-1).Draw(t, "frozenRcv")]
+				case 3, 4:
+					if f := frozenHolders[rapid.IntRange(0, len(frozenHolders)-1).Draw(t, "frozenSnd")]; f < w.n {
+						op.S = f
+					}
+				}
+			}
 			src := op.S
 			if op.App {
 				src = w.appIdx()
@@ -566,6 +615,14 @@ func (w *c22World) drawOp(t *rapid.T, forceCreate bool) c22Op {
 		}
 		op.Y = w.pick(t, "victim", holdersPos, 75, false)
 		op.X = w.pick(t, "rcv", holdersAny, 70, false)
+		if len(frozenHolders) > 0 && rapid.IntRange(0, 9).Draw(t, "clawFrozen") < 4 {
+			f := frozenHolders[rapid.IntRange(0, len(frozenHolders)-1).Draw(t, "clawF")]
+			if rapid.Bool().Draw(t, "clawFrozenVictim") {
+				op.Y = f
+			} else {
+				op.X = f
+			}
+		}
 		op.Amt = c22DrawAmount(t, balOf(op.Y), a.P.Total)
 	case "freeze":
 		fz := w.idxOf(a.P.Freeze)
@@ -644,7 +701,7 @@ func (w *c22World) drawCreate(t *rapid.T) c22Op {
 	for i := range op.Addrs {
 		zeroPct := 25
 		if i == 0 || i >= 2 { // manager, freeze and clawback mostly present so the rules can be exercised
-			zeroPct = 12
+			zeroPct = 8
 		}
 		r := rapid.IntRange(0, 99).Draw(t, "roleKind")
 		switch {
@@ -652,8 +709,10 @@ func (w *c22World) drawCreate(t *rapid.T) c22Op {
 			op.Addrs[i] = -1
 		case r < zeroPct+30:
 			op.Addrs[i] = op.S
+		case r < zeroPct+38 && i == 3:
+			op.Addrs[i] = w.appIdx() // the app account as clawback: inner clawback transactions
 		default:
-			op.Addrs[i] = rapid.IntRange(0, w.n).Draw(t, "roleAddr") // may be the app account
+			op.Addrs[i] = rapid.IntRange(0, w.n-1).Draw(t, "roleAddr")
 		}
 	}
 	return op
@@ -799,6 +858,8 @@ func TestVerif_C22_History(t *testing.T) {
 	var stranger basics.Address
 	copy(stranger[:], "c22-stranger-account-never-funded")
 	tt := t
+	quiet := logging.NewLogger()
+	quiet.SetOutput(io.Discard)
 
 	rapid.Check(t, func(t *rapid.T) {
 		cv := protocol.ConsensusCurrentVersion
@@ -807,7 +868,8 @@ func TestVerif_C22_History(t *testing.T) {
 		}
 		cfg := config.GetDefaultLocal()
 		cfg.DisableLedgerLRUCache = rapid.Bool().Draw(t, "noLRU")
-		l := newSimpleLedgerWithConsensusVersion(tt, gen, cv, cfg)
+		t0 := time.Now()
+		l := newSimpleLedgerWithConsensusVersion(tt, gen, cv, cfg, simpleLedgerLogger(quiet))
 		defer l.Close()
 		proto := config.Consensus[cv]
 
@@ -822,6 +884,8 @@ func TestVerif_C22_History(t *testing.T) {
 		txn(tt, l, eval, &txntest.Txn{Type: "appl", Sender: gaddrs[9], ApprovalProgram: prog, ClearStateProgram: prog})
 		txn(tt, l, eval, &txntest.Txn{Type: "pay", Sender: gaddrs[9], Receiver: w.appID.Address(), Amount: 20_000_000})
 		endBlock(tt, l, eval)
+		vk.Add("ms_setup", time.Since(t0).Milliseconds())
+		t0 = time.Now()
 		w.addrs = append(append([]basics.Address{}, gaddrs[:n]...), w.appID.Address(), stranger)
 		w.all = nil
 		seenAddr := map[basics.Address]bool{}
@@ -839,14 +903,15 @@ func TestVerif_C22_History(t *testing.T) {
 		var rendered []string
 		hist := map[string]bool{}
 		frozeSeen, frozenXferAfterFreeze := false, false
-		nBlocks := rapid.IntRange(3, 9).Draw(t, "blocks")
+		nBlocks := rapid.IntRange(4, 10).Draw(t, "blocks")
 		abandoned := false
 		first := true
 		for b := 0; b < nBlocks && !abandoned; b++ {
 			eval := nextBlock(tt, l)
+			w.progress = 100 * b / nBlocks
 			nGroups := 1
-			if rapid.IntRange(0, 9).Draw(t, "multiGroup") >= 4 {
-				nGroups = rapid.IntRange(2, 5).Draw(t, "groups")
+			if rapid.IntRange(0, 9).Draw(t, "multiGroup") >= 3 {
+				nGroups = rapid.IntRange(2, 8).Draw(t, "groups")
 			}
 			for g := 0; g < nGroups && !abandoned; g++ {
 				gs := 1
@@ -928,6 +993,7 @@ func TestVerif_C22_History(t *testing.T) {
 					if frozeSeen && info["touches-frozen"] {
 						frozenXferAfterFreeze = true
 					}
+					w.clawMoved = w.clawMoved || info["clawback-moved"]
 				case c22Rule:
 					if err == nil {
 						t.Fatalf("group %v accepted, but rule %q forbids it (model state before the group: %s)", ops, pred.why, c22Dump(saved, w))
@@ -949,12 +1015,16 @@ func TestVerif_C22_History(t *testing.T) {
 					}
 				}
 			}
+			w.frozeSeen, w.frozenXfer, w.destroyTried = frozeSeen, frozenXferAfterFreeze, hist["destroy-attempt"]
 			endBlock(tt, l, eval)
+			l.trackers.waitAccountsWriting()
 			if abandoned {
 				break
 			}
 			w.checkLedger(t, tt, l, vk, fmt.Sprintf("after block %d", b+1))
 		}
+		vk.Add("ms_history", time.Since(t0).Milliseconds())
+		vk.Add("groups", int64(len(rendered)/2))
 		nt := frozenXferAfterFreeze && hist["clawback-moved"] && hist["destroy-attempt"]
 		if frozenXferAfterFreeze {
 			vk.Label("hist:freeze-then-transfer")
